@@ -50,4 +50,26 @@ def encExtPrefix : WL → WL → Bool
   | .cons _ _, .nil => false
 end
 
+mutual
+/-- the two grammars describe the same bytes (reading strategy, size limits and capacities aside) -/
+def wireEqv : W → W → Bool
+  | .fixed k, .fixed k' => k == k'
+  | .bool, .bool => true
+  | .char, .char => true
+  | .str _, .str _ => true
+  | .seq _ t, .seq _ t' => wireEqv t t'
+  | .opt t, .opt t' => wireEqv t t'
+  | .res a b, .res a' b' => wireEqv a a' && wireEqv b b'
+  | .prod ts, .prod ts' => wireEqvL ts ts'
+  | .rep n _ t, .rep n' _ t' => (n == n') && wireEqv t t'
+  | .tagged w alts, .tagged w' alts' => (w == w') && wireEqvL alts alts'
+  | .canary, .canary => true
+  | .sysTime, .sysTime => true
+  | _, _ => false
+def wireEqvL : WL → WL → Bool
+  | .nil, .nil => true
+  | .cons t ts, .cons t' ts' => wireEqv t t' && wireEqvL ts ts'
+  | _, _ => false
+end
+
 end Sfv
